@@ -258,7 +258,6 @@ theorem c01_reader_meets_filed (m : NsMgr) (records : List Record) (cont : List 
     ∃ st0 st ts, fileAll st0 records = some (st, ts) ∧ ts.length = records.length ∧ (contElems cont).Perm ts ∧
       decodeJsonContainer.recs c h (cont.filter (fun p => p.1 != "prefix")) = elemFold c h (contElems cont) := by
   obtain ⟨st0, st, ts, _, _, hf, hcont, hlen, hperm⟩ := c01_container_elems m records cont henc
-  have hinit : st0 = jsonEncInit m ∨ True := Or.inr trivial
   refine ⟨st0, st, ts, hf, hlen, hperm, ?_⟩
   have hw : WfCont cont := by
     -- the same run, started from the initial state
